@@ -37,6 +37,12 @@ CHECKS = {
         text='Both directions of the reaching-definitions relation: no phantom alternatives, has_undefined exactly when some path is unbound, E02 for never-bound names. Only programs whose whole decision space was enumerated are used, so "on no path" is decided per program; the program space is sampled.',
         design_ref='DESIGN.md sections 3.1, 4 (C03)',
         note='Loop bound 2; names routed through global/nonlocal and names another scope/builtin/star import could supply are excluded from the undefined/never-bound checks; listed finding "flow graph ignores return" is matched only when the discrepancy vanishes on the return-neutralised variant.'),
+    'C04': dict(
+        technique='property-based testing over query histories: permutation enumeration / sampled orders against a fresh-first baseline; Hypothesis operation sequences on one Project vs a new Project',
+        category='exploration',
+        text='The oracle is supp itself on a fresh state: every read is first answered on a fresh analysis, then the same reads are asked on one analysis object in all permutations (small modules) or forward/reverse/inside-out/every-read-first/random orders, and lint()/location() must agree with the per-read answers; project-level request sequences are compared request by request with a new Project. Decides order-independence (memoisation transparency), which no single-order unit test can see.',
+        design_ref='DESIGN.md section 4 (C04)',
+        note='Says nothing about correctness of the baseline (C01-C03 do). Real files: baselines for a sample of reads (loop reads preferred); all reads compared across orders.'),
 }
 
 NOT_YET = 'check not built yet in this session (planned in DESIGN.md section 4); not claimed until its command exists'
